@@ -276,7 +276,13 @@ class HRPrinter(TreeWalker):
         self.write("]")
 
     def walk_array_value(self, formula: FNode) -> Iterator[FNode]:
-        self.write(str(self.env.stc.get_type(formula)))
+        # The type is built from the index type and the type of the default
+        # value: asking the type-checker for the type of the array value
+        # itself never terminates when this node is being printed for the
+        # error message of its own (failed) type-check
+        default_type = self.env.stc.get_type(formula.array_value_default())
+        self.write(str(self.env.type_manager.ArrayType(
+            formula.array_value_index_type(), default_type)))
         self.write("(")
         yield formula.array_value_default()
         self.write(")")
